@@ -51,7 +51,7 @@ FIRST = {
     "C09-H": "missed -> one message object sent twice through the codec with a change in between",
     "C14-I": "missed -> EarlySuspend (a remembered installation taken back before the manager exists)",
     "C14-J": "NOT caught: the interval / offset of a recurring task are constants of Kernel.tla; re-installing one task object with other parameters is not modelled (DESIGN 9.6)",
-    "C19-I": "NOT caught: the node-level rigs probe with the node's own application packets; forwarded transit traffic of a multi-port node is C06's subject and its next hop is not compared with the cache there (DESIGN 9.6)",
+    "C19-I": "missed (the rigs probed with the node's own application packets only) -> transit probe: a two-port node forwards a packet for every destination network (TransitFollowsKnowledge)",
     "C19-J": "missed (network numbers were small) -> two of the four destination networks and one source network beyond 32767; also caught by C08",
     "C15-I": "missed by C15 (values are compared as encoded by the same library); caught by C01 (bit strings of 8n bits)",
     "C15-J": "NOT caught: add_property / delete_property at run time on one of two objects of a class is not an operation of ObjStore.tla (DESIGN 9.6)",
